@@ -650,11 +650,38 @@ class Interp:
         if k == 'adt':
             head, names = rv.extra
             vals = [self.eval_operand(frame, o) for o in rv.args]
+            if head.startswith('{closure@') and rv.args:
+                vals = self._fix_closure_captures(frame, head, rv, vals)
             return self.make_adt(head, names, vals, frame.fn)
         if k == 'len':
             v = self.read_place(frame, rv.args[0])
             return v.length()
         raise Unsupported('rvalue ' + k)
+
+    def _fix_closure_captures(self, frame, head, rv, vals):
+        """rustc's MIR printer zips capture *variable names* with the operands, so a closure that
+        captures two disjoint fields of one variable (`self.a`, `self.b`) is printed with an operand
+        missing.  The captures are moved from consecutive temporaries; recover the missing ones."""
+        fnc = self.index.closures.get(norm_closure_ty(head))
+        if fnc is None:
+            return vals
+        idx = [int(x) for x in re.findall(r'\(\*?_1\)?\.(\d+): ', '\n'.join(fnc.lines))]
+        idx += [int(x) for x in re.findall(r'\(_1\.(\d+): ', '\n'.join(fnc.lines))]
+        need = (max(idx) + 1) if idx else len(vals)
+        if need <= len(vals):
+            return vals
+        locs = [o.place.local for o in rv.args if o.kind == 'move' and o.place is not None and not o.place.proj]
+        if len(locs) != len(rv.args) or locs != list(range(locs[0], locs[0] + len(locs))):
+            raise Unsupported('closure %s captures %d values but %d are printed' % (head, need, len(vals)))
+        out = list(vals)
+        nxt = locs[-1] + 1
+        while len(out) < need:
+            c = frame.cells.get(nxt)
+            if c is None or c.v is None:
+                raise Unsupported('closure %s: missing capture operand _%d' % (head, nxt))
+            out.append(c.v)
+            nxt += 1
+        return out
 
     def make_adt(self, head, names, vals, creator=None):
         if head.startswith(('{closure@', '{coroutine@', '{async ')):
@@ -783,6 +810,16 @@ class Interp:
             if signed and r >= 1 << (w - 1):
                 r -= 1 << w
             return S(z3.IntVal(r), a.ty)
+        if op == 'BitOr':
+            for k in (32, 16, 8, 48, 24):
+                m = 1 << k
+                for x, y in ((a.t, b.t), (b.t, a.t)):
+                    if not self.path.feasible(z3.Not(z3.And(x % m == 0, y >= 0, y < m))):
+                        return S(x + y, a.ty)      # disjoint bit ranges: or == add
+        if op == 'BitAnd' and cb is not None and cb >= 0 and (cb & (cb + 1)) == 0:
+            return S(a.t % (cb + 1), a.ty)
+        if op == 'BitAnd' and ca is not None and ca >= 0 and (ca & (ca + 1)) == 0:
+            return S(b.t % (ca + 1), a.ty)
         xa, xb = z3.Int2BV(a.t, w), z3.Int2BV(b.t, w)
         r = {'BitAnd': xa & xb, 'BitOr': xa | xb, 'BitXor': xa ^ xb}[op]
         return S(z3.BV2Int(r, signed), a.ty)
